@@ -1317,17 +1317,23 @@ impl Checker {
 
         // Check the cache first
         if let Some(cached) = self.shape_cache.borrow().get(&resolved_path) {
+            #[cfg(feature = "verif")]
+            crate::verif::emit(serde_json::json!({"ev":"shape_cache","path":resolved_path.to_string_lossy(),"hit":true}));
             return cached.clone();
         }
 
         // Check for import cycles
         if self.import_stack.contains(&resolved_path) {
+            #[cfg(feature = "verif")]
+            crate::verif::emit(serde_json::json!({"ev":"static_cycle","path":resolved_path.to_string_lossy()}));
             return Shape::TypeErr(
                 pos.clone(),
                 format!("Import cycle detected: {}", resolved_path.display()),
             );
         }
 
+        #[cfg(feature = "verif")]
+        crate::verif::emit(serde_json::json!({"ev":"shape_cache","path":resolved_path.to_string_lossy(),"hit":false}));
         // Read the file
         let contents = match std::fs::read_to_string(&resolved_path) {
             Ok(c) => c,
